@@ -14,7 +14,10 @@
 package engine
 
 import (
+	"crypto/sha256"
 	"fmt"
+	"hash"
+	"strconv"
 	"sync"
 	"sync/atomic"
 )
@@ -156,8 +159,16 @@ type Sched struct {
 	switches map[swKey]int
 	Recorded []Switch
 
-	Events    []Event
-	MaxEvents int
+	Events     []Event // kept only when KeepEvents is set (debugging)
+	KeepEvents bool
+	EventCount int
+	evHash     hash.Hash // streaming hash of the event log
+	sigHash    hash.Hash // streaming hash of (task, site, next) at switches
+	lastNext   int
+	hbuf       []byte
+	runBuf     []*Task
+	preempt    map[string]int // preemptions by site
+	MaxEvents  int
 	Overflow  bool
 	seq       int
 
@@ -203,7 +214,11 @@ func New(strategy Strategy, switches []Switch, maxEvents int) *Sched {
 		ctl:       make(chan msg),
 		strategy:  strategy,
 		MaxEvents: maxEvents,
-		Events:    make([]Event, 0, 1024),
+		evHash:    sha256.New(),
+		sigHash:   sha256.New(),
+		lastNext:  -2,
+		hbuf:      make([]byte, 0, 128),
+		preempt:   map[string]int{},
 		Probes:    map[string]int{},
 		lastCtx:   map[interface{}]int{},
 		lastName:  map[interface{}]int{},
@@ -400,7 +415,7 @@ func (s *Sched) Run() {
 			break
 		}
 		next := s.choose(prev, site, obj, runnable)
-		if len(s.Events) >= s.MaxEvents {
+		if s.EventCount >= s.MaxEvents {
 			s.StepBudget = true
 			active = nil
 			return
@@ -410,11 +425,11 @@ func (s *Sched) Run() {
 		if prev != nil {
 			ev.Task, ev.Op, ev.Yield = prev.ID, prev.op, prev.yields
 		}
-		s.Events = append(s.Events, ev)
+		s.logEvent(ev)
 		if prev != nil && next != prev {
 			s.SwitchCount++
 			if prev.state == stRunnable {
-				s.Probes["preempt@"+site]++
+				s.preempt[site]++
 			}
 		}
 
@@ -460,14 +475,61 @@ func (s *Sched) Run() {
 	s.wg.Wait()
 }
 
+// logEvent appends one entry to the (streamed) event log.
+//
+//go:norace
+func (s *Sched) logEvent(ev Event) {
+	s.EventCount++
+	if s.KeepEvents {
+		s.Events = append(s.Events, ev)
+	}
+	b := s.hbuf[:0]
+	b = strconv.AppendInt(b, int64(ev.Seq), 10)
+	b = append(b, ' ')
+	b = strconv.AppendInt(b, int64(ev.Task), 10)
+	b = append(b, ' ')
+	b = strconv.AppendInt(b, int64(ev.Op), 10)
+	b = append(b, ' ')
+	b = strconv.AppendInt(b, int64(ev.Yield), 10)
+	b = append(b, ' ')
+	b = append(b, ev.Site...)
+	b = append(b, ' ')
+	b = strconv.AppendInt(b, int64(ev.Next), 10)
+	b = append(b, '\n')
+	s.evHash.Write(b)
+	if ev.Next != s.lastNext && ev.Task >= 0 && ev.Next != ev.Task {
+		b = b[:0]
+		b = strconv.AppendInt(b, int64(ev.Task), 10)
+		b = append(b, ' ')
+		b = append(b, ev.Site...)
+		b = append(b, ' ')
+		b = strconv.AppendInt(b, int64(ev.Next), 10)
+		b = append(b, '\n')
+		s.sigHash.Write(b)
+	}
+	s.lastNext = ev.Next
+	s.hbuf = b
+}
+
+// EventHash returns the running hash object of the event log (the run
+// package appends the operation outcomes and finalises it).
+func (s *Sched) EventHash() hash.Hash { return s.evHash }
+
+// SigSum returns the schedule signature.
+func (s *Sched) SigSum() []byte { return s.sigHash.Sum(nil) }
+
+// Preemptions returns the preemption counts by site.
+func (s *Sched) Preemptions() map[string]int { return s.preempt }
+
 //go:norace
 func (s *Sched) runnable() []*Task {
-	var r []*Task
+	r := s.runBuf[:0]
 	for _, t := range s.Tasks {
 		if t.state == stRunnable {
 			r = append(r, t)
 		}
 	}
+	s.runBuf = r
 	return r
 }
 
